@@ -56,7 +56,7 @@ def build_pool(rng, nprng, n, maxlen):
         pool.append({"label": label, "fname": fname, "desc": desc, "tensors": tensors, "kwargs": kwargs, "adapter": adapter})
 
     fams = G.FAMILIES + ["update"]
-    while len(pool) < max(8, n - 52):
+    while len(pool) < max(8, n - 57):
         c = G.generate(rng, nprng, family=rng.choice(fams), P={"maxlen": maxlen})
         kw = c.call_kwargs()
         if rng.random() < 0.3:
@@ -94,6 +94,21 @@ def build_pool(rng, nprng, n, maxlen):
     for p in (2, 2.0, True, 3):
         add("adapter-option", None, "a [b]", [x], {"p": p}, adapter="reduce")
     add("adapter-raises", None, "a [b]", [x], {"p": "boom"}, adapter="reduce")
+    # factories of different signatures on the same call: what they receive (and hence return) follows their own signature
+    def fs_plain(shape):
+        return np.ones(shape)
+
+    def fs_named(shape, name=None):
+        return np.ones(shape) * (2 if name else 1)
+
+    def fs_varkw(shape, **kw):
+        return np.ones(shape) * (10 + len(kw))
+
+    def fs_kwonly(shape, *, arg_index=None):
+        return np.ones(shape) * (5 if arg_index is not None else 1)
+
+    for f in (fs_plain, fs_named, fs_varkw, fs_kwonly, fs_plain):
+        add("factory-signature", "add", "a b, b", [x, f], {})
     add("semantic", "sort", "[a] [b]", [x], {})
     add("semantic", "dot", "a b, b c", [x, x.T], {})
     add("unknown-backend", "sum", "a [b]", [x], {"backend": "no.such"})
@@ -199,9 +214,14 @@ def run(spec, out):
 
 def finalize(agg, tier, seed):
     c = agg.counters
-    for k in ("equals_pristine_hit", "equals_pristine_miss", "label:conf-size", "label:conf-shift", "label:factory-bad-shape"):
-        if c.get(k, 0) < 8:
+    for k in ("equals_pristine_hit", "equals_pristine_miss"):
+        if c.get(k, 0) < 50:
             agg.inconclusive.append(f"monitor counter {k} = {c.get(k, 0)}")
+    groups = {"conf-": 60, "factory": 20}
+    for prefix, minimum in groups.items():
+        n = sum(v for k, v in c.items() if k.startswith("label:" + prefix))
+        if n < minimum:
+            agg.inconclusive.append(f"only {n} calls of the '{prefix}*' groups observed")
     if c.get("pristine_oracle_unavailable", 0) > 0.05 * max(1, c.get("evaluations", 0)):
         agg.inconclusive.append(f"pristine oracle unavailable for {c.get('pristine_oracle_unavailable')} calls")
     return {"labels": {k[6:]: int(v) for k, v in c.items() if k.startswith("label:")}}
